@@ -408,6 +408,10 @@ def build_module(D, importable=True, fail_kinds=(None,), max_items=7, allow_asyn
     m = Mod(D, importable, fail_kinds, allow_async)
     m.helper = helper
     m.disabled_blocks = disabled_blocks
+    for _ in range(max(0, D.int(0, 7) - 4)):
+        # files may open with empty / whitespace-only lines (above a licence header, a docstring, the imports)
+        m.add(D.choice(['', '', '    ']))
+        m.features.add('leading_blank_lines')
     if D.bool():
         m.emit_docstring('', '__doc__', layouts=['google', 'freeform', 'prose', 'mixed'])
         m.features.add('module_docstring')
@@ -572,3 +576,8 @@ def expected_inventory(case, style):
         gnames = {e['callname'] for e in inv['google']}
         return list(inv['google']) + [e for e in inv['freeform'] if e['callname'] not in gnames]
     return list(inv[style])
+
+
+def decoy_lines(lines):
+    """an earlier version of the file: the same text pushed down below a header, plus a function that is gone afterwards"""
+    return ['# an earlier version of this file', '', 'def vp_earlier_version_only():', '    """', '    >>> print(1)', '    1', '    """', '', ''] + list(lines)
